@@ -51,6 +51,8 @@ type crcCase struct {
 	PauseMs int `json:"pause_ms,omitempty"`
 	// ExplicitParser: the client's configuration names the standard response parser explicitly (see cli.Scenario)
 	ExplicitParser bool `json:"explicit_parser,omitempty"`
+	// Address: the form of the address given to Connect (network kinds; see cli.Scenario)
+	Address string `json:"address,omitempty"`
 }
 
 func validReply(c crcCase) ([]byte, error) {
@@ -133,7 +135,7 @@ func runCRC(c crcCase) harness.Result {
 		ev[1].Ms = c.PauseMs
 		rtMs = 1000
 	}
-	sc := cli.Scenario{Kind: c.Kind, Req: c.Req, Stream: stream, Events: ev, ReadTimeoutMs: rtMs, Prior: c.Prior, PriorReq: cli.PriorShapeReq(c.PriorShape), ExplicitParser: c.ExplicitParser}
+	sc := cli.Scenario{Kind: c.Kind, Req: c.Req, Stream: stream, Events: ev, ReadTimeoutMs: rtMs, Prior: c.Prior, PriorReq: cli.PriorShapeReq(c.PriorShape), ExplicitParser: c.ExplicitParser, Address: c.Address}
 	return judge(c, stream, reply, cli.Run(sc))
 }
 
@@ -267,6 +269,9 @@ func genCRC(t *rapid.T, kinds []string) crcCase {
 		c.EOF = rapid.SampledFrom([]int{0, 0, 1, 2}).Draw(t, "eof")
 	}
 	c.ExplicitParser = !cli.IsSerial(c.Kind) && rapid.IntRange(0, 2).Draw(t, "explicit_parser") == 0
+	if !cli.IsSerial(c.Kind) {
+		c.Address = rapid.SampledFrom(cli.Addresses).Draw(t, "address")
+	}
 	if c.Corr.Kind == "prepend" && rapid.IntRange(0, 7).Draw(t, "pause_after_noise") == 0 {
 		// the noise in front arrives on its own, the line then stays silent for a while before the (valid) rest follows
 		c.Cuts = []int{len(c.Corr.Data)}
